@@ -210,3 +210,6 @@ def run(chk, repo):
             okp = len(defs) == 1 and fcfg.dominates(defs[0], site)
     chk.ob('C19.i', 'filter() receives load_coding_transcripts(args) on every path', ff.where, okp,
            'the coding-transcript set passed to filter() is not the unconditionally loaded one', key=ff.qual + '::coding-tx-threading', fn=ff.qual)
+    from rules.shared import kwname
+    chk.clauses.append('C19.kw (shared R-THREAD) parameters handed on as keyword arguments keep their name: no `a=b` between two parameters of one function')
+    kwname(chk, repo, 'C19.kw', ['aa.VariantPeptidePool', 'cli.filter_fasta'], floor=0)
